@@ -78,9 +78,16 @@ Section L2.
         end
     end.
 
+  (* a TaggedValue is left alone: its `tags` parameter is supplied by TaggedValueCls.__build__, and
+     giving it a value would make the build fail (repaired in the implementation) *)
+  Definition mat_node (n : node) : node :=
+    match n with
+    | NBuildable BTagged _ _ _ => n
+    | _ => on_buildable (fun fn args => materialize (sig_of e fn) args) n
+    end.
+
   Definition materialize_defaults (h : heap) (root : ref) : heap :=
-    fst (map_visit (on_buildable (fun fn args => materialize (sig_of e fn) args))
-                   (S (length h)) (h, []) root).
+    fst (map_visit mat_node (S (length h)) (h, []) root).
 
   (* atoms compared with Python ==; a pointer is "equal to the default" only if it is the default
      object itself (structural equality of mutable values is left to the oracle stream) *)
